@@ -56,7 +56,10 @@ type thread struct {
 	vc      vclock
 	name    string
 	frame   *frame // innermost active frame
+	sinceSwitch int
 }
+
+const fairnessWindow = 40
 
 type accessRec struct {
 	wThread int
@@ -81,7 +84,7 @@ type scheduler struct {
 func (i *interpreter) resetSched() {
 	main := &thread{id: 0, wake: make(chan struct{}), vc: vclock{1}, name: "main"}
 	i.sched = &scheduler{threads: []*thread{main}, cur: main, acc: map[interface{}]*accessRec{}, atomics: map[*value]vclock{}}
-	i.vclock = int64(0)
+	i.vclock = int64(1_700_000_000_000_000_000) // virtual wall clock: some date in 2023
 }
 
 func (i *interpreter) curFrame() *frame {
@@ -248,12 +251,22 @@ func (i *interpreter) schedPoint(fr *frame, why string) {
 	if len(en) == 1 {
 		return
 	}
+	// fairness: Go's scheduler is preemptive, so a thread cannot run for ever
+	// while another one is enabled.  After many scheduling points without a
+	// switch the next enabled thread is run (not a decision, not a preemption).
+	cur.sinceSwitch++
+	if cur.sinceSwitch > fairnessWindow {
+		cur.sinceSwitch = 0
+		i.switchTo(en[1])
+		return
+	}
 	if s.preemptions >= i.cfg.MaxPreemptions {
 		return
 	}
 	k := i.path.chooseIndex(len(en))
 	if k != 0 {
 		s.preemptions++
+		cur.sinceSwitch = 0
 		i.switchTo(en[k])
 	}
 }
